@@ -194,6 +194,8 @@ def emit_proc(proj, p, ind):
             syms = syms + extra
         L.append(f'{ind}  use {spell(m, len(syms))}, only: {", ".join(dict.fromkeys(syms))}')
     L.append(f'{ind}  implicit none')
+    if P.get('cinclude'):
+        L.append(f'#include "ext_{p}.intfb.h"')
     L.append(f'{ind}  real, intent(inout) :: x')
     for i, (m, t) in enumerate(P['uses_type']):
         L.append(f'{ind}  type({t}) :: tv{i}')
